@@ -53,6 +53,52 @@ pub proof fn lemma_r256_mul(x: int) ensures r256() * x == 0x1_0000_0000_0000_000
 { assert(r256() * x == 0x1_0000_0000_0000_0000int * (0x1_0000_0000_0000_0000int * (0x1_0000_0000_0000_0000int * (0x1_0000_0000_0000_0000int * x)))) by(nonlinear_arith); }
 pub proof fn lemma_pv4(a: Seq<u64>) requires a.len() == 4 ensures pv(a, 4) == val4(a) { }
 pub proof fn lemma_pv8(a: Seq<u64>) requires a.len() == 8 ensures pv(a, 8) == val8(a) { lemma_r256_mul(val4(a.subrange(4, 8))); }
+// symbolic powers of 2^64 and partial limb values (used where literal coefficients get too large for the solver)
+pub open spec fn p64r(n: int) -> int decreases n { if n <= 0 { 1 } else { 0x1_0000_0000_0000_0000int * p64r(n - 1) } }
+pub open spec fn pvr(a: Seq<u64>, n: int) -> int decreases n { if n <= 0 { 0 } else { pvr(a, n - 1) + p64r(n - 1) * a[n - 1] as int } }
+pub open spec fn hv64(a: Seq<u64>, lo: int, n: int) -> int decreases n - lo { if lo >= n { 0 } else { a[lo] as int + 0x1_0000_0000_0000_0000int * hv64(a, lo + 1, n) } }
+pub proof fn lemma_pvr_update(s: Seq<u64>, k: int, v: u64, n: int)
+    requires 0 <= n <= k < s.len()
+    ensures pvr(s.update(k, v), n) == pvr(s, n)
+    decreases n
+{ if n > 0 { lemma_pvr_update(s, k, v, n - 1); } }
+pub proof fn lemma_pvr_hv64(s: Seq<u64>, lo: int, n: int)
+    requires 0 <= lo <= n
+    ensures pvr(s, n) == pvr(s, lo) + p64r(lo) * hv64(s, lo, n)
+    decreases n - lo
+{
+    if lo == n {
+        assert(p64r(lo) * 0 == 0);
+    } else {
+        lemma_pvr_hv64(s, lo + 1, n);
+        let h = hv64(s, lo + 1, n);
+        let p = p64r(lo);
+        let d = s[lo] as int;
+        assert(p64r(lo + 1) == 0x1_0000_0000_0000_0000int * p);
+        assert(pvr(s, lo + 1) == pvr(s, lo) + p * d);
+        assert(hv64(s, lo, n) == d + 0x1_0000_0000_0000_0000int * h);
+        assert(p * d + (0x1_0000_0000_0000_0000int * p) * h == p * (d + 0x1_0000_0000_0000_0000int * h)) by(nonlinear_arith);
+    }
+}
+pub proof fn lemma_pvr8(a: Seq<u64>) requires a.len() == 8 ensures pvr(a, 8) == val8(a)
+{
+    lemma_pvr_hv64(a, 0, 8);
+    assert(pvr(a, 0) == 0 && p64r(0) == 1);
+    reveal_with_fuel(hv64, 9);
+    lemma_pv8(a);
+}
+pub proof fn lemma_add_step(s: int, aa: int, bb: int, p: int, t: int, x: int, y: int, co: bool, cn: bool)
+    requires s + (if co { p } else { 0 }) == aa + bb,
+        t + (if cn { 0x1_0000_0000_0000_0000int } else { 0 }) == x + y + (if co { 1int } else { 0 }),
+    ensures (s + p * t) + (if cn { 0x1_0000_0000_0000_0000int * p } else { 0 }) == (aa + p * x) + (bb + p * y)
+{
+    let c0 = if co { 1int } else { 0 };
+    let c1 = if cn { 1int } else { 0 };
+    assert(s + c0 * p == aa + bb);
+    assert(t + c1 * 0x1_0000_0000_0000_0000int == x + y + c0);
+    assert((s + p * t) + c1 * (0x1_0000_0000_0000_0000int * p) == (aa + p * x) + (bb + p * y)) by(nonlinear_arith)
+        requires s + c0 * p == aa + bb, t + c1 * 0x1_0000_0000_0000_0000int == x + y + c0;
+}
 // ---- big-endian byte strings vs limbs ----
 // value of the top k limbs of a 4-limb number
 pub open spec fn hv(a: Seq<u64>, k: int) -> int {
@@ -182,6 +228,11 @@ pub proof fn lemma_val32_hv32(s: Seq<u64>, lo: int, n: int)
         assert(d * p + (0x1_0000_0000int * p) * h == p * (d + 0x1_0000_0000int * h)) by(nonlinear_arith);
     }
 }
+// limb k of l is split into the 32-bit digits 2k, 2k+1 of d
+pub open spec fn split_at(d: Seq<u64>, l: Seq<u64>, k: int) -> bool {
+    l[k] as int == d[2 * k] as int + 0x1_0000_0000int * d[2 * k + 1] as int && d[2 * k] < 0x1_0000_0000 && d[2 * k + 1] < 0x1_0000_0000
+}
+pub open spec fn join_at(l: Seq<u64>, d: Seq<u64>, k: int) -> bool { l[k] as int == d[2 * k] as int + 0x1_0000_0000int * d[2 * k + 1] as int }
 // limbs l and digits d with l[k] == d[2k] + 2^32 d[2k+1]
 pub proof fn lemma_digits8(d: Seq<u64>, l: Seq<u64>)
     requires d.len() == 8, l.len() == 4,
@@ -283,10 +334,12 @@ const fn u512_add(a: &U512, b: &U512) -> (res: (U512, bool))
     let mut carry = false;
     let mut i = 0;
     loop
-        invariant_except_break 0 <= i <= 7, pv(sum@, i as int) + (if carry { p64(i as int) } else { 0 }) == pv(a@, i as int) + pv(b@, i as int),
-        ensures pv(sum@, 8) + (if carry { p64(8) } else { 0 }) == pv(a@, 8) + pv(b@, 8),
+        invariant_except_break 0 <= i <= 7, pvr(sum@, i as int) + (if carry { p64r(i as int) } else { 0 }) == pvr(a@, i as int) + pvr(b@, i as int),
+        ensures pvr(sum@, 8) + (if carry { p64r(8) } else { 0 }) == pvr(a@, 8) + pvr(b@, 8),
         decreases 7 - i
     {
+        let ghost co = carry;
+        let ghost s0 = sum@;
         let (t_sum, c) = {
             let (m, c1) = a[i].overflowing_add(b[i]);
             let (r, c2) = m.overflowing_add(carry as u64);
@@ -294,12 +347,16 @@ const fn u512_add(a: &U512, b: &U512) -> (res: (U512, bool))
         };
         sum[i] = t_sum;
         carry = c;
+        proof {
+            lemma_pvr_update(s0, i as int, t_sum, i as int);
+            lemma_add_step(pvr(s0, i as int), pvr(a@, i as int), pvr(b@, i as int), p64r(i as int), t_sum as int, a[i as int] as int, b[i as int] as int, co, carry);
+        }
         if i == 7 {
             break;
         }
         i += 1;
     }
-    proof { lemma_pv8(sum@); lemma_pv8(a@); lemma_pv8(b@); assert(r256() * r256() == p64(8)) by(compute); }
+    proof { lemma_pvr8(sum@); lemma_pvr8(a@); lemma_pvr8(b@); assert(r256() * r256() == p64r(8)) by(compute); }
     (sum, carry)
 }
 
@@ -330,7 +387,6 @@ const fn u256_sub(a: &U256, b: &U256) -> (res: (U256, bool))
     (r, borrow)
 }
 
-#[verifier::rlimit(60)]
 fn u256_mul(a: &U256, b: &U256) -> (ret: U512)
     ensures val8(ret@) == val4(a@) * val4(b@)
 {
@@ -342,9 +398,11 @@ fn u256_mul(a: &U256, b: &U256) -> (ret: U512)
     for i in 0..4
         invariant
             forall|k: int| 0 <= k < 16 ==> s[k] == 0,
-            forall|k: int| 0 <= k < i ==> (#[trigger] a[k]) as int == a_[2 * k] as int + 0x1_0000_0000int * a_[2 * k + 1] as int && a_[2 * k] < 0x1_0000_0000 && a_[2 * k + 1] < 0x1_0000_0000,
-            forall|k: int| 0 <= k < i ==> (#[trigger] b[k]) as int == b_[2 * k] as int + 0x1_0000_0000int * b_[2 * k + 1] as int && b_[2 * k] < 0x1_0000_0000 && b_[2 * k + 1] < 0x1_0000_0000,
+            forall|k: int| 0 <= k < i ==> split_at(a_@, a@, k),
+            forall|k: int| 0 <= k < i ==> split_at(b_@, b@, k),
     {
+        let ghost a0 = a_@;
+        let ghost b0 = b_@;
         proof {
             let x = a[i as int];
             let y = b[i as int];
@@ -355,16 +413,18 @@ fn u256_mul(a: &U256, b: &U256) -> (ret: U512)
         b_[2 * i] = b[i] & 0xffffffff;
         a_[2 * i + 1] = a[i] >> 32;
         b_[2 * i + 1] = b[i] >> 32;
+        proof {
+            assert forall|k: int| 0 <= k < i + 1 implies split_at(a_@, a@, k) by {
+                if k < i { assert(split_at(a0, a@, k)); assert(a_[2 * k] == a0[2 * k] && a_[2 * k + 1] == a0[2 * k + 1]); }
+            }
+            assert forall|k: int| 0 <= k < i + 1 implies split_at(b_@, b@, k) by {
+                if k < i { assert(split_at(b0, b@, k)); assert(b_[2 * k] == b0[2 * k] && b_[2 * k + 1] == b0[2 * k + 1]); }
+            }
+        }
     }
     proof {
-        assert(a[0] as int == a_[0] as int + 0x1_0000_0000int * a_[1] as int && a[1] as int == a_[2] as int + 0x1_0000_0000int * a_[3] as int
-            && a[2] as int == a_[4] as int + 0x1_0000_0000int * a_[5] as int && a[3] as int == a_[6] as int + 0x1_0000_0000int * a_[7] as int);
-        assert(b[0] as int == b_[0] as int + 0x1_0000_0000int * b_[1] as int && b[1] as int == b_[2] as int + 0x1_0000_0000int * b_[3] as int
-            && b[2] as int == b_[4] as int + 0x1_0000_0000int * b_[5] as int && b[3] as int == b_[6] as int + 0x1_0000_0000int * b_[7] as int);
-        assert(a_[0] < 0x1_0000_0000 && a_[1] < 0x1_0000_0000 && a_[2] < 0x1_0000_0000 && a_[3] < 0x1_0000_0000
-            && a_[4] < 0x1_0000_0000 && a_[5] < 0x1_0000_0000 && a_[6] < 0x1_0000_0000 && a_[7] < 0x1_0000_0000);
-        assert(b_[0] < 0x1_0000_0000 && b_[1] < 0x1_0000_0000 && b_[2] < 0x1_0000_0000 && b_[3] < 0x1_0000_0000
-            && b_[4] < 0x1_0000_0000 && b_[5] < 0x1_0000_0000 && b_[6] < 0x1_0000_0000 && b_[7] < 0x1_0000_0000);
+        assert(split_at(a_@, a@, 0) && split_at(a_@, a@, 1) && split_at(a_@, a@, 2) && split_at(a_@, a@, 3));
+        assert(split_at(b_@, b@, 0) && split_at(b_@, b@, 1) && split_at(b_@, b@, 2) && split_at(b_@, b@, 3));
         assert(forall|k: int| 0 <= k < 8 ==> a_[k] < 0x1_0000_0000 && b_[k] < 0x1_0000_0000);
         lemma_digits8(a_@, a@);
         lemma_digits8(b_@, b@);
@@ -425,16 +485,24 @@ fn u256_mul(a: &U256, b: &U256) -> (ret: U512)
     for i in 0..8
         invariant
             forall|k: int| 0 <= k < 16 ==> s[k] < 0x1_0000_0000,
-            forall|k: int| 0 <= k < i ==> (#[trigger] ret[k]) as int == s[2 * k] as int + 0x1_0000_0000int * s[2 * k + 1] as int,
+            forall|k: int| 0 <= k < i ==> join_at(ret@, s@, k),
     {
+        let ghost r0 = ret@;
         proof {
             let x = s[2 * i as int];
             let y = s[2 * i as int + 1];
             assert(((y << 32) | x) == x + 0x1_0000_0000 * y) by(bit_vector) requires x < 0x1_0000_0000, y < 0x1_0000_0000;
         }
         ret[i] = (s[2 * i + 1] << 32) | s[2 * i];
+        proof {
+            assert forall|k: int| 0 <= k < i + 1 implies join_at(ret@, s@, k) by {
+                if k < i { assert(join_at(r0, s@, k)); assert(ret[k] == r0[k]); }
+            }
+        }
     }
     proof {
+        assert(join_at(ret@, s@, 0) && join_at(ret@, s@, 1) && join_at(ret@, s@, 2) && join_at(ret@, s@, 3)
+            && join_at(ret@, s@, 4) && join_at(ret@, s@, 5) && join_at(ret@, s@, 6) && join_at(ret@, s@, 7));
         lemma_digits16(s@, ret@);
     }
     ret
